@@ -41,6 +41,20 @@ def specs(tier, seed):
         relay = {k: v for k, v in relay.items() if k != "rewrite_id"}
         out.append({"seed": seed * 100000 + 200 + i, "sess": dict(sess), "relay": relay, "relay_hs_only": True,
                     "mode": "clean", "pkts": pk, "dur_ms": tend + 45000, "label": "clean%d/%s" % (i, kind)})
+    # packets that need exactly 16 (the most the 4-bit fragment number allows), 15 and 2 fragments, in both directions,
+    # with 0 / 1 bytes to spare in the last fragment: "fits in 16 fragments" is the property's own boundary
+    for i in range(10 if tier == "quick" else 80):
+        fs = [50, 64, 100, 150, 200, 70][i % 6]
+        pk = []
+        t = 200
+        for j, (side, dst) in enumerate([("S", "C0"), ("C0", "S")] * 4):
+            nfr, slack = [(16, 0), (16, 0), (15, 1), (16, 1), (2, 0), (15, 0), (16, 7), (1, 0)][(j + i) % 8]
+            pk.append([t, side, dst, "frags:%d:%d" % (nfr, slack), 0])
+            t += 6000
+        out.append({"seed": seed * 100000 + 270 + i,
+                    "sess": {"qtype": ["NULL", "TXT", "PRIVATE", "MX", "SRV"][i % 5], "lazy": i % 2, "fragsize": fs,
+                             "maxlen": [None, 200, 160, 120][i % 4]},
+                    "relay": {}, "mode": "clean", "pkts": pk, "dur_ms": t + 30000, "label": "frag16-%d" % i})
     for i in range(4 if tier == "quick" else 30):
         pk, tend = pacing(rng, kinds[i % 6], 14)
         out.append({"seed": seed * 100000 + 290 + i, "sess": {"qtype": "NULL", "raw": True}, "relay": {},
